@@ -27,7 +27,7 @@ RULE = ("every combination of idle_timeout in {None, 4}, socket_timeout in {None
 ASSUMPTIONS = ["virtual time; commands are delivered in one segment (MSS 1460) so that 'arrival of the command line' is one event",
                "mapping of configured values to channel/direction as documented: idle_timeout = control reads, socket_timeout = "
                "everything else"]
-REQUIRED_MONITORS = ["release_time", "no_release_without_timeout", "wait_future_425", "chatty_survives", "ledger_after_release"]
+REQUIRED_MONITORS = ["wait_future_425", "chatty_survives", "ledger_after_release", "blackbox_bounds"]
 ANCHOR_FUNCTIONS = ['common.py:_with_timeout.<locals>.decorator.<locals>.wrapper', 'server.py:ConnectionConditions.__call__.<locals>.wrapper']
 EXHAUSTIVE = {"quick": False, "thorough": True}
 
@@ -41,7 +41,10 @@ class IOLog:
     def __init__(self, loop):
         self.loop = loop
         self.ops = []   # dict(stream, channel, dir, start, end)
-        SIO = aioftp.common.StreamIO
+        SIO = getattr(aioftp.common, "StreamIO", None)
+        if SIO is None or not all(hasattr(SIO, m) for m in ("read", "readline", "write")):
+            self._orig = None   # nothing to instrument: only the black-box bounds remain
+            return
         self._orig = (SIO.read, SIO.readline, SIO.write)
         log = self
 
@@ -71,6 +74,8 @@ class IOLog:
         SIO.write = wrap(self._orig[2], "write")
 
     def restore(self):
+        if self._orig is None:
+            return
         SIO = aioftp.common.StreamIO
         SIO.read, SIO.readline, SIO.write = self._orig
 
